@@ -7,10 +7,14 @@
    scope carries what it holds afterwards (`sc_intls`).  `cache_ok` = every cached rules object
    computes what a freshly constructed one does (the memoizer invariant, C14).
 
-   Excluded class (finding D22, witness C08_write_eq_format_refuted_by_string_formatter): a value
-   formatter (`set_formatter`) that returns Some for FluentValue::String.  format_pattern ends
-   with `value.into_string(&scope)`, which runs the formatter on the resolved result as a whole;
-   write_pattern does not.                                                                     *)
+   History (D22, fixed in /repo by "format_pattern does not run the value formatter on the resolved
+   text"): format_pattern used to end with `value.into_string(&scope)`, which ran the value
+   formatter (`set_formatter`) on the resolved result as a whole, while write_pattern did not; a
+   formatter returning Some for FluentValue::String made the two differ.  C08_write_eq_format now
+   holds for EVERY formatter (example C08_example_string_formatter).  Reverting the fix
+   (tools/mutants/revert_D22/patch.diff) breaks the correspondence on every case with the `all`
+   formatter and the oracle of props/C08.py reports format_pattern != write_pattern on the corpus
+   witness `hello = Hello { $name }`.                                                            *)
 From FluentV Require Import Base.Bytes Base.Outcome Syntax.Ast Bundle.Args Bundle.ArgsProofs Bundle.Number
   Bundle.ResolverAst Bundle.ResolverModel Bundle.ResolverSim Bundle.ResolverPure Gen.Extracted.
 From Coq Require Import Sorting.Permutation.
@@ -35,17 +39,17 @@ Notation format := (format_pattern overflow_checks call_function transform forma
 (* "formatting to a string and formatting into a writer produce the same text and the same error
    list": format_pattern (Pattern::resolve with its single-text shortcut, then into_string) returns
    exactly the bytes write_pattern (Pattern::write) writes, with the same final scope (errors,
-   function calls, memoizer) — for every fuel, so also the same Panic / OutOfFuel. *)
+   function calls, memoizer) — for every fuel, so also the same Panic / OutOfFuel — and for every
+   transform and every value formatter (no hypothesis). *)
 Theorem C08_write_eq_format :
   forall args fuel p c,
-    formatter_keeps_strings formatter ->
     format args (S fuel) p c =
     match write args (S fuel) p c with
     | Done (o, sc) => Done (flatten o, sc)
     | Panic t => Panic t
     | OutOfFuel => OutOfFuel
     end.
-Proof. intros. now apply format_eq_write. Qed.
+Proof. intros. apply format_eq_write_all. Qed.
 
 (* "three stringification paths": FluentValue::write, as_string and into_string are one function *)
 Theorem C08_stringify_agree :
@@ -111,17 +115,18 @@ Example C08_example_agree :
    | Done (o, _) => Some (flatten o) | _ => None end) = Some (s "Hello X").
 Proof. split; vm_compute; reflexivity. Qed.
 
-(* D22: formatter String(s) -> "<s>".  write_pattern: "Hello <X>"; format_pattern: "<Hello <X>>" *)
+(* D22 (fixed): formatter String(s) -> "<s>".  Both entry points give "Hello <X>": the formatter is
+   applied to the interpolated value, not to the resolved text as a whole. *)
 Definition ex_formatter : option (fvalue -> option bytes) :=
   Some (fun v => match v with VString x => Some ([60%N] ++ x ++ [62%N])%list | _ => None end).
 
-Example C08_write_eq_format_refuted_by_string_formatter :
+Example C08_example_string_formatter :
   (match format_pattern true ex_call None ex_formatter ex_rules ex_id ex_id ex_id f64_from_str_exact ex_b ex_args 9 ex_pattern [] with
-   | Done (t, _) => Some t | _ => None end) = Some (s "<Hello <X>>") /\
+   | Done (t, _) => Some t | _ => None end) = Some (s "Hello <X>") /\
   (match write_pattern true ex_call None ex_formatter ex_rules ex_id ex_id ex_id f64_from_str_exact ex_b ex_args 9 ex_pattern [] with
    | Done (o, _) => Some (flatten o) | _ => None end) = Some (s "Hello <X>") /\
-  ~ formatter_keeps_strings ex_formatter.
-Proof.
-  repeat split; try (vm_compute; reflexivity).
-  intros H. specialize (H []). discriminate H.
-Qed.
+  (* the single-text shortcut of Pattern::resolve: no formatter there either *)
+  (match format_pattern true ex_call None ex_formatter ex_rules ex_id ex_id ex_id f64_from_str_exact ex_b None 9
+           (Pattern [TextElement (s "Hello")]) [] with
+   | Done (t, _) => Some t | _ => None end) = Some (s "Hello").
+Proof. repeat split; vm_compute; reflexivity. Qed.
